@@ -28,6 +28,8 @@ CASES = [
  ("C19", "stochastic/_ranker.py", "        if n is None or n < 0:\n            n = self.config.n or -1", "        if n is None or n < 0 or n > N:\n            n = self.config.n or -1", "break"),
  ("C19", "basic/random.py", "        if n < 0:\n            n = len(items)\n        else:\n            n = min(n, len(items))", "        if n <= 0:\n            n = len(items)\n        else:\n            n = min(n, len(items))", "break"),
  ("C19", "basic/random.py", "        if n < 0 or n > N:\n            n = N", "        if n > N or n < 0:\n            n = N", "keep"),
+ ("C19", "basic/random.py", "        if n < 0 or n > N:\n            n = N", "        if not (0 <= n <= N):\n            n = N", "keep"),
+ ("C19", "stochastic/_ranker.py", "        if n < 0 or n > N:\n            n = N", "        if not (0 < n <= N):\n            n = N", "break"),
 ]
 def build(pid):
     r = subprocess.run(["lake", "build", f"LK.Proofs.Guards{pid}"], cwd=LEAN, capture_output=True, text=True)
